@@ -220,6 +220,25 @@ void make_items(const Options& o, std::vector<Item>& items)
     // 2 writers, 2 readers
     add({1, 1}, {Reader{1, 0, false}, Reader{1, 1, false}}, false, 2, 3);
     if (thorough) {
+        // systematic: every writer multiset x every reader multiset (forms lock_shared / try_lock_shared_for)
+        std::vector<std::vector<int>> wsets = {{1}, {2}, {1, 1}, {2, 1}, {2, 2}, {1, 1, 1}};
+        std::vector<Reader> rk;
+        for (int acq = 1; acq <= 3; acq++)
+            for (int hold = 0; hold < 2; hold++)
+                for (int f : {0, 2}) {
+                    if (hold && acq < 2) continue;
+                    rk.push_back(Reader{acq, f, (bool)hold});
+                }
+        for (auto& ws : wsets) {
+            for (size_t a = 0; a < rk.size(); a++) {
+                add(ws, {rk[a]}, false, 3, 6);
+                if (ws.size() == 2 && ws[0] == 1 && ws[1] == 1) add(ws, {rk[a]}, true, 3, 6);
+                for (size_t b = a; b < rk.size(); b++) {
+                    if (ws.size() > 2 || rk[a].acq + rk[b].acq > 4) continue;
+                    add(ws, {rk[a], rk[b]}, false, 2, 6);
+                }
+            }
+        }
         add({1, 1}, {Reader{2, 0, false}, Reader{2, 0, false}}, false, 2, 3);
         add({2, 1}, {Reader{2, 0, false}}, false, 2, 3);
         add({2, 2}, {Reader{2, 0, true}}, false, 2, 3);
